@@ -61,7 +61,7 @@ impl Cx {
     }
     #[inline]
     pub fn violate(&mut self, prop: &'static str, tag: &str, msg: String) {
-        if self.crash_only && !tag.contains("panic") {
+        if self.crash_only && !tag.contains("panic") && !tag.contains("drop") {
             self.halt = true;
             return;
         }
@@ -954,6 +954,24 @@ pub fn run_histories<S: System>(sys: &S, hists: &[Vec<String>], threads: usize, 
                             sys.canon(&obj, &mut buf);
                             if o.fps.insert(fingerprint(&buf)) && sys.nontrivial(&obj) {
                                 o.nontrivial += 1;
+                            }
+                        }
+                        if ok {
+                            // differential twin at the end of the history (suffix after the last clear on a new object)
+                            cx.muted = true;
+                            let sup0 = cx.suppressed;
+                            let tw = sys.twin(&steps, &mut cx);
+                            cx.muted = false;
+                            cx.viols.clear();
+                            if let (Some(mut tw), true) = (tw, cx.suppressed == sup0) {
+                                let (mut oa, mut ob) = (vec![], vec![]);
+                                sys.observe(&mut obj, &mut oa);
+                                sys.observe(&mut tw, &mut ob);
+                                cx.count("twin_comparisons");
+                                if oa != ob {
+                                    cx.violate("C12", "twin", "observations after clear differ from a fresh twin driven by the same suffix".to_string());
+                                    file(&mut cx, &steps, &mut o);
+                                }
                             }
                         }
                         if ok {
